@@ -145,9 +145,13 @@ impl Gen {
                 self.mark("block-expr");
                 return self.block_expr(ty, d - 1);
             }
-            if k < 30 && self.ret == Ret::OptTk && ty == Ty::Tk {
+            if k < 40 && self.ret == Ret::OptTk && ty == Ty::Tk {
                 self.mark("question-mark");
                 return format!("({})?", self.expr(Ty::OptTk, d - 1));
+            }
+            if k < 34 && self.ret == Ret::OptTk && ty == Ty::U32 {
+                self.mark("question-mark");
+                return format!("id(({})?)", self.expr(Ty::OptTk, d - 1));
             }
         }
         let vars = self.vars_of(ty);
@@ -227,8 +231,19 @@ impl Gen {
                 3 => format!("name({})", self.expr(Ty::Tk, dd)),
                 4 => {
                     self.mark("f-string");
-                    let a = self.expr(Ty::U32, dd);
-                    let b = self.expr(Ty::Str, dd);
+                    let mut a = self.expr(Ty::U32, dd);
+                    let mut b = self.expr(Ty::Str, dd);
+                    // an early exit taken from inside an interpolation (first or later part)
+                    if self.rng.chance(1, 3) {
+                        self.mark("f-string-exit");
+                        let c = self.expr(Ty::Bool, 0);
+                        let x = self.exit(0);
+                        if self.rng.chance(1, 2) {
+                            a = format!("if {c} {{ {x} }} else {{ {a} }}");
+                        } else {
+                            b = format!("if {c} {{ {b} }} else {{ {x} }}");
+                        }
+                    }
                     format!("f\"x{{{a}}}y{{{b}}}\"")
                 }
                 5 => {
